@@ -372,7 +372,69 @@ fn closure<T: Tier, M: MatN<T, N> + InvT<T>, const N: usize>(rep: &mut Report) {
     );
 }
 
+/// invertible matrices one unit roundoff away from a singular one, whose determinant and inverse are exactly
+/// representable: the identity with the 2x2 block [[1, 1], [1, 1 + e]] (or its mirror images) in rows/columns (i, j),
+/// e the machine epsilon of the tier (2^-52 in the exact tier). det = +-e however it is expanded (every product and
+/// every partial sum is exact), so determinant() must say exactly that and invert() must return the inverse - a
+/// "small relative to the entries" test in either would call these singular
+fn near_singular<T: Tier, M: MatN<T, N> + InvT<T>, const N: usize>(rep: &mut Report) {
+    let pairs: Vec<(usize, usize)> = (0..N).flat_map(|i| (i + 1..N).map(move |j| (i, j))).collect();
+    let nv = 4;
+    rep.cases(
+        &format!("near-singular/{}", M::NAME),
+        T::NAME,
+        &format!("{} index pairs x 4 placements of the entry 1 + e (and sign of the off-diagonal pair)", pairs.len()),
+        pairs.len() * nv,
+        Guard::states(4).distinct(4),
+        |i, ctx| {
+            let ((p, q), var) = (pairs[i / nv], i % nv);
+            let e: T = if T::EXACT { T::q(1, 1i64 << 52) } else { num_traits::cast::<f64, T>(T::U * 2.0).unwrap() };
+            let one = T::one();
+            let mut m = lower_m::<T, N>(model::mident());
+            // block (rows/cols p, q): [[a, s], [s, d]] column-major m[col][row]
+            let (a, d, sgn) = match var { 0 => (one, one + e, one), 1 => (one + e, one, one), 2 => (one, one + e, -one), _ => (one + e, one, -one) };
+            m[p][p] = a;
+            m[q][q] = d;
+            m[p][q] = sgn;
+            m[q][p] = sgn;
+            ctx.describe(|| format!("{} {:?}", M::NAME, m));
+            ctx.out(&(p, q, var));
+            let cm = M::mk(m);
+            // a*d - s*s = (1 + e) - 1 = e
+            same_slice(ctx, &key("determinant/exact-near-singular"), &[cm.determinant()], &[e]);
+            same_slice(ctx, &key("determinant/exact-near-singular"), &[cm.transpose().determinant()], &[e]);
+            let inv = cm.invert();
+            ctx.check(inv.is_some(), &key("invert/some-near-singular"), || format!("invert() is None although the determinant is {:?}", e));
+            if let Some(n) = inv {
+                // inverse block = (1/e) [[d, -s], [-s, a]]
+                let ie = one / e;
+                let mut want = lower_m::<T, N>(model::mident());
+                want[p][p] = d * ie;
+                want[q][q] = a * ie;
+                want[p][q] = -sgn * ie;
+                want[q][p] = -sgn * ie;
+                let got = n.arr();
+                for c in 0..N {
+                    for r in 0..N {
+                        ctx.t();
+                        let (g, w) = (got[c][r].f(), want[c][r].f());
+                        if !((g - w).abs() <= 4.0 * T::U * w.abs()) {
+                            ctx.fail(&key("invert/near-singular"), || format!("inverse[{c}][{r}] = {:?}, expected {:?}", got[c][r], want[c][r]));
+                        }
+                    }
+                }
+            }
+            for (name, it) in cm.inv_transforms() {
+                ctx.check(it.is_some(), &key(&format!("inverse_transform/{name}/some-near-singular")), || "inverse_transform() is None for an invertible matrix".to_string());
+            }
+        },
+    );
+}
+
 fn all<T: Tier>(rep: &mut Report) {
+    near_singular::<T, Matrix2<T>, 2>(rep);
+    near_singular::<T, Matrix3<T>, 3>(rep);
+    near_singular::<T, Matrix4<T>, 4>(rep);
     sparse::<T, Matrix2<T>, 2>(rep);
     sparse::<T, Matrix3<T>, 3>(rep);
     sparse::<T, Matrix4<T>, 4>(rep);
